@@ -506,12 +506,14 @@ TRUSTED = [
     "lxml/libxml2 DTD parser delivers the content tree (DtdParser is a thin reader) and is the independent validator",
     "jinja2/ruff absent: harness/standin_render.py transliterates the templates",
 ]
-ASSUMPTIONS = ["child elements are (#PCDATA); ANY, mixed content and xmlns attribute declarations are exercised only by the oracle's default shapes"]
+ASSUMPTIONS = ["attribute types: the default/fixed logic is modelled for string-valued types (CDATA, NMTOKEN(S), ID/IDREF, enumerations); the token/ID semantics of the types themselves are exercised by the oracle only"]
 LEVEL_TEXT = (
     "Partial. Lean theorems (Props/C16.lean) for DtdMapper.build_content (after the repair: occurrence indicators of sequence and choice "
     "nodes go to the restrictions path, as for XSD) and the occurrence handlers: for every content model with distinct element names, wherever "
     "the occurrence indicators sit, a non-list field is never repeated and a required field is always present in a DTD-valid document, and a list "
-    "field is needed; the mapper's fields are literally the XSD mapper's sites of the same particle; counterexample theorem for repeated names. Tied to /repo by "
+    "field is needed; the mapper's fields are literally the XSD mapper's sites of the same particle; counterexample theorem for repeated names. "
+    "Attribute declarations: whatever a DTD-valid element carries for #REQUIRED / #IMPLIED / #FIXED / defaulted attributes is accepted and read as the value the DTD prescribes "
+    "(dtd_attribute_faithful). Element declarations: ANY and mixed content give one wildcard list, EMPTY no fields, (#PCDATA) a text field. Tied to /repo by "
     "correspondence of DtdMapper sites, the handlers and the generated field shapes of the whole pipeline; documents and attribute defaults end to end by the oracle."
 )
 LEVEL_NOTE = "Trusted: Lean kernel, particle language spec, libxml2 DTD reader/validator, stand-in renderer, sampling correspondence."
